@@ -181,6 +181,23 @@ Proof.
 Qed.
 Print Assumptions C09_legendre_partition_of_unity.
 
+(* ElementTriBDM1: polynomials in x, y and the indeterminate s standing for sqrt 3 (the real lbasis run with the module
+   constants s_1, s_2 = 1/2 -+ s/6 re-evaluated from the source and arithmetic in Q(s)/(s^2 - 3); every emitted
+   coefficient has degree <= 1 in s, so the identity below is a polynomial identity in (x, y, s) and holds in particular
+   at s = sqrt 3).  Tie: tolerance correspondence with the numerical lbasis at s = sqrt 3. *)
+Theorem C09_bdm1_div_is_divergence :
+  forall (R : Type) (rO rI : R) (radd rmul rsub : R -> R -> R) (ropp : R -> R) (req : R -> R -> Prop) (phi : Q -> R),
+    Equivalence req -> ring_eq_ext radd rmul ropp req -> ring_theory rO rI radd rmul rsub ropp req ->
+    ring_morph rO rI radd rmul rsub ropp req 0%Q 1%Q Qplus Qmult Qminus Qopp Qeq_bool phi ->
+    forall e, In e sqrt3_elements -> forall b, In b (e_basis e) ->
+      bfun_spec R rO rI radd rmul ropp req phi (e_dim e) b.
+Proof.
+  intros R rO rI radd rmul rsub ropp req phi H1 H2 H3 H4 e He.
+  apply (deriv_ok_sound R rO rI radd rmul rsub ropp req phi H1 H2 H3 H4).
+  exact (proj1 (Forall_forall _ _) sqrt3_deriv_ok e He).
+Qed.
+Print Assumptions C09_bdm1_div_is_divergence.
+
 (* ---- mapped derivatives (any non-degenerate affine cell) ---- *)
 
 (* chain rule, for EVERY polynomial p in at most n variables, every affine map F(x) = b + A x of a d-dimensional
@@ -338,7 +355,46 @@ Proof.
   split; [exact hcurl_curl3_scale | exact cov_value3_is_generated].
 Qed.
 Print Assumptions C09_hcurl_covariant_curl_3d.
-(* not proved (oracle only): multilinear (quad/hex) geometries, matrix Piola map of the HHJ elements, ElementTriBDM1 *)
+(* not proved (oracle only): H(div)/H(curl) Piola maps on multilinear geometries, matrix Piola map of the HHJ elements *)
+
+(* ---- general cells (multilinear quadrilaterals / hexahedra, curved second-order cells): per class, at every rational
+   reference point X where the delivered Jacobian J is invertible with B = invDF, B J = I: the delivered global gradient
+   g = einsum('ijkl,il->jkl', invDF, dphi) (regenerated) satisfies  J^T g = grad_ref phi (X), the TRUE reference gradient
+   of the delivered value.  Since the delivered J is the derivative of the cell map F as polynomials
+   (props/C10.v: C10_iso_J_is_derivative_of_F) and invDF J = I on it where det <> 0 (C10_iso_inverse_of_delivered_J), this
+   is exactly the chain rule for phi = u o F, i.e. g is the gradient of u = phi o F^-1 — stated without the inverse map. ---- *)
+Theorem C09_h1_gradient_general_cell_2d :
+  forall e, In e all_elements -> e_dim e = 2%nat ->
+  forall p grad, In (BH1 p grad) (e_basis e) ->
+  forall (J B : nat -> nat -> Q) (X : nat -> Q),
+    B 0%nat 0%nat * J 0%nat 0%nat + B 0%nat 1%nat * J 1%nat 0%nat == 1 ->
+    B 0%nat 0%nat * J 0%nat 1%nat + B 0%nat 1%nat * J 1%nat 1%nat == 0 ->
+    B 1%nat 0%nat * J 0%nat 0%nat + B 1%nat 1%nat * J 1%nat 0%nat == 0 ->
+    B 1%nat 0%nat * J 0%nat 1%nat + B 1%nat 1%nat * J 1%nat 1%nat == 1 ->
+    forall k, (k < 2)%nat ->
+      J 0%nat k * gen_h1_grad2 B (fun i => qeval (nthp grad i) X) 0%nat + J 1%nat k * gen_h1_grad2 B (fun i => qeval (nthp grad i) X) 1%nat
+      == qeval (pderiv k p) X.
+Proof. exact h1_general_cell_gradient2. Qed.
+Print Assumptions C09_h1_gradient_general_cell_2d.
+
+Theorem C09_h1_gradient_general_cell_3d :
+  forall e, In e all_elements -> e_dim e = 3%nat ->
+  forall p grad, In (BH1 p grad) (e_basis e) ->
+  forall (J B : nat -> nat -> Q) (X : nat -> Q),
+    B 0%nat 0%nat * J 0%nat 0%nat + B 0%nat 1%nat * J 1%nat 0%nat + B 0%nat 2%nat * J 2%nat 0%nat == 1 ->
+    B 0%nat 0%nat * J 0%nat 1%nat + B 0%nat 1%nat * J 1%nat 1%nat + B 0%nat 2%nat * J 2%nat 1%nat == 0 ->
+    B 0%nat 0%nat * J 0%nat 2%nat + B 0%nat 1%nat * J 1%nat 2%nat + B 0%nat 2%nat * J 2%nat 2%nat == 0 ->
+    B 1%nat 0%nat * J 0%nat 0%nat + B 1%nat 1%nat * J 1%nat 0%nat + B 1%nat 2%nat * J 2%nat 0%nat == 0 ->
+    B 1%nat 0%nat * J 0%nat 1%nat + B 1%nat 1%nat * J 1%nat 1%nat + B 1%nat 2%nat * J 2%nat 1%nat == 1 ->
+    B 1%nat 0%nat * J 0%nat 2%nat + B 1%nat 1%nat * J 1%nat 2%nat + B 1%nat 2%nat * J 2%nat 2%nat == 0 ->
+    B 2%nat 0%nat * J 0%nat 0%nat + B 2%nat 1%nat * J 1%nat 0%nat + B 2%nat 2%nat * J 2%nat 0%nat == 0 ->
+    B 2%nat 0%nat * J 0%nat 1%nat + B 2%nat 1%nat * J 1%nat 1%nat + B 2%nat 2%nat * J 2%nat 1%nat == 0 ->
+    B 2%nat 0%nat * J 0%nat 2%nat + B 2%nat 1%nat * J 1%nat 2%nat + B 2%nat 2%nat * J 2%nat 2%nat == 1 ->
+    forall k, (k < 3)%nat ->
+      J 0%nat k * gen_h1_grad3 B (fun i => qeval (nthp grad i) X) 0%nat + J 1%nat k * gen_h1_grad3 B (fun i => qeval (nthp grad i) X) 1%nat + J 2%nat k * gen_h1_grad3 B (fun i => qeval (nthp grad i) X) 2%nat
+      == qeval (pderiv k p) X.
+Proof. exact h1_general_cell_gradient3. Qed.
+Print Assumptions C09_h1_gradient_general_cell_3d.
 
 (* ---- the derivative of analysis (Coquelicot): at every REAL point the delivered gradient component is the
    partial derivative of the delivered value; div / curl are sums / differences of such derivatives.
